@@ -3,6 +3,7 @@
 -/
 import MotoModel.Props.C09
 import MotoModel.Props.C18
+import MotoModel.Proofs.PathSpelling
 namespace Moto.C20
 open Moto
 
@@ -149,5 +150,189 @@ theorem injLoop_core (w w' : Tape.World) (srcs : List Str) (hw : ∀ s ∈ srcs,
           · simp only [hq, if_true, Except.map, hc]
           · simp only [hq, if_false]
             exact hrest s1 s2 hc
+
+/-! ### the spelling of the source paths -/
+
+/-- position by position -/
+inductive AllSame {α β : Type} (R : α → β → Prop) : List α → List β → Prop
+  | nil : AllSame R [] []
+  | cons {a : α} {b : β} {as : List α} {bs : List β} : R a b → AllSame R as bs → AllSame R (a :: as) (b :: bs)
+
+/-- two source arguments that designate the same thing: same end-of-side test, same catalog name,
+    same extensions (stored and with option), and the files they open hold the same bytes -/
+def SameSource (w w' : Tape.World) (s s' : Str) : Prop :=
+  basename (upper s) = basename (upper s') ∧ (splitSource s).1 = (splitSource s').1 ∧ (splitSource s).2.1 = (splitSource s').2.1
+  ∧ (splitSource s).2.2.1 = (splitSource s').2.2.1 ∧ w (splitSource s).2.2.2 = w' (splitSource s').2.2.2
+
+theorem injFile_core2 (w w' : Tape.World) (s s' : Str) (hs : SameSource w w' s s') (a b : Inj) (h : core a = core b) :
+    (injFile w s a).map (fun r => (core r.1, r.2)) = (injFile w' s' b).map (fun r => (core r.1, r.2)) := by
+  obtain ⟨_, h1, h2, h3, hw⟩ := hs
+  unfold injFile
+  dsimp only
+  rw [← hw, ← h1, ← h2, ← h3]
+  cases hd : w (splitSource s).2.2.2 with
+  | none => simp [Except.map, core] at h ⊢; exact h
+  | some data =>
+    dsimp only
+    split
+    · simp [Except.map, core] at h ⊢; exact h
+    · split
+      · simp [Except.map, core] at h ⊢; exact h
+      · have := injWriteFile_core (splitSource s).1
+          (dispatch (splitSource s).1 (splitSource s).2.1 (splitSource s).2.2.1).2.2
+          (dispatch (splitSource s).1 (splitSource s).2.1 (splitSource s).2.2.1).1
+          (dispatch (splitSource s).1 (splitSource s).2.1 (splitSource s).2.2.1).2.1 data 4 a b h
+        revert this
+        cases injWriteFile _ _ _ _ data 4 a <;> cases injWriteFile _ _ _ _ data 4 b <;> simp [Except.map]
+
+theorem injLoop_core2 (w w' : Tape.World) : ∀ (srcs srcs' : List Str), AllSame (SameSource w w') srcs srcs' →
+    ∀ (a b : Inj), core a = core b → (injLoop w srcs a).map core = (injLoop w' srcs' b).map core := by
+  intro srcs srcs' hf
+  induction hf with
+  | nil => intro a b h; simp [injLoop, Except.map, h]
+  | @cons src src' rest rest' hs _ ih =>
+    intro a b h
+    obtain ⟨ai, ac, al⟩ := a
+    obtain ⟨bi, bc, bl⟩ := b
+    simp only [core, Prod.mk.injEq] at h
+    obtain ⟨rfl, rfl⟩ := h
+    simp only [injLoop]
+    rw [← hs.1]
+    split
+    · cases hu : usageOfSide ai ac with
+      | error e => simp [Except.map]
+      | ok u =>
+        dsimp only
+        by_cases h4 : ac + 1 ≥ 4
+        · simp [h4, Except.map, core]
+        · simp only [h4, if_false]
+          exact ih _ _ rfl
+    · have hf := injFile_core2 w w' src src' hs ⟨ai, ac, al⟩ ⟨ai, ac, bl⟩ rfl
+      cases h1 : injFile w src ⟨ai, ac, al⟩ with
+      | error e1 =>
+        cases h2 : injFile w' src' ⟨ai, ac, bl⟩ with
+        | error e2 => rw [h1, h2] at hf; simpa [Except.map] using hf
+        | ok r2 => rw [h1, h2] at hf; simp [Except.map] at hf
+      | ok r1 =>
+        cases h2 : injFile w' src' ⟨ai, ac, bl⟩ with
+        | error e2 => rw [h1, h2] at hf; simp [Except.map] at hf
+        | ok r2 =>
+          obtain ⟨s1, p1⟩ := r1
+          obtain ⟨s2, p2⟩ := r2
+          rw [h1, h2] at hf
+          simp only [Except.map, Except.ok.injEq, Prod.mk.injEq] at hf
+          obtain ⟨hc, hp⟩ := hf
+          subst hp
+          have hcur : s1.cur = s2.cur := by simp only [core, Prod.mk.injEq] at hc; exact hc.2
+          dsimp only
+          rw [hcur]
+          by_cases hq : (p1 && decide (s2.cur ≥ 4)) = true
+          · simp only [hq, if_true, Except.map, hc]
+          · simp only [hq, if_false]
+            exact ih s1 s2 hc
+
+theorem injTail_core (fuel : Nat) : ∀ (a b : Inj), core a = core b → (injTail fuel a).map core = (injTail fuel b).map core := by
+  induction fuel with
+  | zero => intro a b h; simp [injTail, Except.map, h]
+  | succ f ih =>
+    intro a b h
+    obtain ⟨ai, ac, al⟩ := a
+    obtain ⟨bi, bc, bl⟩ := b
+    simp only [core, Prod.mk.injEq] at h
+    obtain ⟨rfl, rfl⟩ := h
+    simp only [injTail]
+    split
+    · cases hu : usageOfSide ai (ac + 1) with
+      | error e => simp [Except.map]
+      | ok u => dsimp only; exact ih _ _ rfl
+    · simp [Except.map, core]
+
+/-- **C20 (disk creation is a function of the ordered (catalog name, kind, content) list)**: two
+    create or add batches on the same image whose sources, position by position, have the same
+    catalog name, extension, option and content — whatever the spelling of the paths, the
+    verbosity, the archive name, the rest of the file system — produce the same image, or both fail
+    the same way. -/
+theorem performCore_pure (w w' : Tape.World) (v v' : Bool) (img : Image) (srcs srcs' : List Str)
+    (hs : AllSame (SameSource w w') srcs srcs') :
+    (match performCore w v img srcs with | .ok st => some (.ok st.img) | .error (e, _) => some (Except.error e) : Option (Except PyErr Image))
+      = (match performCore w' v' img srcs' with | .ok st => some (.ok st.img) | .error (e, _) => some (Except.error e)) := by
+  unfold performCore
+  dsimp only
+  have hl := injLoop_core2 w w' srcs srcs' hs
+    { img := img, cur := 0, l := onBeginOfSide { processing := 2, verbose := v } 0 }
+    { img := img, cur := 0, l := onBeginOfSide { processing := 2, verbose := v' } 0 } rfl
+  cases h1 : injLoop w srcs { img := img, cur := 0, l := onBeginOfSide { processing := 2, verbose := v } 0 } with
+  | error e1 =>
+    cases h2 : injLoop w' srcs' { img := img, cur := 0, l := onBeginOfSide { processing := 2, verbose := v' } 0 } with
+    | error e2 => rw [h1, h2] at hl; simp [Except.map] at hl; simp [hl]
+    | ok s2 => rw [h1, h2] at hl; simp [Except.map] at hl
+  | ok s1 =>
+    cases h2 : injLoop w' srcs' { img := img, cur := 0, l := onBeginOfSide { processing := 2, verbose := v' } 0 } with
+    | error e2 => rw [h1, h2] at hl; simp [Except.map] at hl
+    | ok s2 =>
+      rw [h1, h2] at hl
+      simp only [Except.map, Except.ok.injEq, core, Prod.mk.injEq] at hl
+      obtain ⟨himg, hcur⟩ := hl
+      obtain ⟨i1, c1, l1⟩ := s1
+      obtain ⟨i2, c2, l2⟩ := s2
+      dsimp only at himg hcur ⊢
+      subst himg hcur
+      by_cases hc : c1 < 4
+      · rw [if_pos hc, if_pos hc]
+        cases hu : usageOfSide i1 c1 with
+        | error e => simp
+        | ok u =>
+          dsimp only
+          have ht := injTail_core 4 ⟨i1, c1, onEndOfSide l1 u⟩ ⟨i1, c1, onEndOfSide l2 u⟩ rfl
+          cases g1 : injTail 4 ⟨i1, c1, onEndOfSide l1 u⟩ with
+          | error e1 =>
+            cases g2 : injTail 4 ⟨i1, c1, onEndOfSide l2 u⟩ with
+            | error e2 => rw [g1, g2] at ht; simp [Except.map] at ht; simp [ht]
+            | ok t2 => rw [g1, g2] at ht; simp [Except.map] at ht
+          | ok t1 =>
+            cases g2 : injTail 4 ⟨i1, c1, onEndOfSide l2 u⟩ with
+            | error e2 => rw [g1, g2] at ht; simp [Except.map] at ht
+            | ok t2 =>
+              rw [g1, g2] at ht
+              simp only [Except.map, Except.ok.injEq, core, Prod.mk.injEq] at ht
+              simp [ht.1]
+      · rw [if_neg hc, if_neg hc]
+
+/-- a source given with another directory spelling — relative, absolute, through directories whose
+    names contain dots — designates the same thing, provided both spellings open files with the
+    same bytes -/
+theorem same_source_of_spelling (w w' : Tape.World) (pre pre' base : Str) (hp : DirPrefix pre) (hp' : DirPrefix pre') (hb : 47 ∉ base)
+    (hw : w (pre ++ (splitSource base).2.2.2) = w' (pre' ++ (splitSource base).2.2.2)) :
+    SameSource w w' (pre ++ base) (pre' ++ base) := by
+  obtain ⟨a1, a2, a3, a4⟩ := splitSource_prefix pre base hp hb
+  obtain ⟨b1, b2, b3, b4⟩ := splitSource_prefix pre' base hp' hb
+  refine ⟨by rw [eos_prefix pre base hp hb, eos_prefix pre' base hp' hb], by rw [a1, b1], by rw [a2, b2], by rw [a3, b3], ?_⟩
+  rw [a4, b4]; exact hw
+
+/-- the same for the tape archiver: descriptor and content of a source do not depend on the
+    spelling of its directory part -/
+theorem tape_specFile_spelling (w w' : Tape.World) (pre pre' base : Str) (hp : DirPrefix pre) (hp' : DirPrefix pre') (hb : 47 ∉ base)
+    (hw : w (pre ++ (Tape.classify base).2) = w' (pre' ++ (Tape.classify base).2)) :
+    C03.specFile w (pre ++ base) = C03.specFile w' (pre' ++ base) := by
+  obtain ⟨a1, a2⟩ := classify_prefix pre base hp hb
+  obtain ⟨b1, b2⟩ := classify_prefix pre' base hp' hb
+  unfold C03.specFile Tape.contentOf
+  dsimp only
+  rw [a1, b1, a2, b2, hw]
+
+/-- **C20 (tape creation depends on the (name, kind, content) list only)**: source lists that give
+    the same descriptors and contents, however the paths are spelled, give the same archive -/
+theorem tape_create_spelling (w w' : Tape.World) (v v' : Bool) (a a' : Str) (srcs srcs' : List Str)
+    (hr : Tape.AllReadable w srcs) (hr' : Tape.AllReadable w' srcs')
+    (hm : srcs.map (C03.specFile w) = srcs'.map (C03.specFile w')) :
+    (Tape.inject w v a srcs).writes.map (·.2) = (Tape.inject w' v' a' srcs').writes.map (·.2)
+      ∧ (Tape.inject w v a srcs).status = (Tape.inject w' v' a' srcs').status := by
+  by_cases hfit : Spec.K7.encSize (srcs.map (C03.specFile w)) < 21504
+  · have h1 := C09.accepted w v a srcs hr hfit
+    have h2 := C09.accepted w' v' a' srcs' hr' (hm ▸ hfit)
+    rw [h1.2.1, h2.2.1, h1.1, h2.1, hm]; simp
+  · have h1 := C09.refused w v a srcs hr hfit
+    have h2 := C09.refused w' v' a' srcs' hr' (hm ▸ hfit)
+    rw [h1.2.1, h2.2.1, h1.1, h2.1]; simp
 
 end Moto.C20
